@@ -334,6 +334,40 @@ func ruleR41(c *Ctx) *RuleResult {
 			}
 		}
 	}
+	// what Value() answers: position index of the level order is the (index-start+1)-th Pop of the level's temporary heap — on
+	// every path. A shortcut that picks the level's minimum some other way (a linear scan) breaks ties differently from the
+	// Pops that serve the level's other positions: one of two tied elements is handed out twice, the other never.
+	if it := typeByKey(p, "trees/binaryheap.Iterator"); it != nil {
+		if fn := methodsOf(p, it)["Value"]; fn != nil {
+			key := "trees/binaryheap.Iterator.value-by-pop"
+			clause := "every path of the iterator's Value() returns what a Pop of a temporary heap answered (or slot 0 of the iterated heap itself)"
+			gc := c.GC(fn)
+			var bad []string
+			n := 0
+			if gc.Undecided == "" {
+				for _, g := range gc.GCs {
+					if g.Exit.Op != "return" || len(g.Exit.Args) != 1 {
+						continue
+					}
+					n++
+					rv := g.Exit.Args[0]
+					s := noEpoch(rv)
+					okPop := rv.Op == "ext" && rv.Leaf == "0" && len(rv.Args) == 1 && rv.Args[0].Op == "res" && len(rv.Args[0].Args) == 1 && rv.Args[0].Args[0].Op == "do" && strings.HasSuffix(rv.Args[0].Args[0].Leaf, ").Pop")
+					okRoot := strings.Contains(s, "(fa:heap p:0)") && (strings.HasSuffix(s, " #:0)))") || strings.Contains(s, ").Peek ")) && rv.Op == "ext"
+					// a helper's result (an unknown helper is expanded; a known one would be a call): not judged
+					okHelper := rv.Op == "res" || (rv.Op == "ext" && len(rv.Args) == 1 && rv.Args[0].Op == "res" && !okPop && rv.Args[0].Args[0].Op == "do" && !strings.HasSuffix(rv.Args[0].Args[0].Leaf, ").Pop") && !strings.Contains(rv.Args[0].Args[0].Leaf, "arraylist"))
+					if !okPop && !okRoot && !okHelper {
+						bad = append(bad, "a path of Value() answers "+trunc(s, 160)+" — not the result of popping the level's temporary heap: "+trunc(guardsString(g), 160))
+					}
+				}
+			}
+			if len(bad) > 0 {
+				r.bad(key, clause, p.FuncPos(fn), strings.Join(dedup(bad), "\n"))
+			} else if n > 0 {
+				r.ok(key, clause, p.FuncPos(fn), fmt.Sprintf("%d returning path(s), each answers through Pop", n))
+			}
+		}
+	}
 	// the iterator orders each level with a temporary heap: that heap must be ordered by the heap's own comparator (the very
 	// function value — a wrapper that swaps or reverses it orders ties differently from the way Pop does)
 	if it := typeByKey(p, "trees/binaryheap.Iterator"); it != nil {
